@@ -385,31 +385,9 @@ def run_reference(scn, i):
 # --------------------------------------------------------------------------
 # forked children
 # --------------------------------------------------------------------------
-def in_child(fn, *args, timeout=120):
-    r, w = os.pipe()
-    pid = os.fork()
-    if pid == 0:
-        code = 0
-        try:
-            os.close(r)
-            signal.alarm(timeout)
-            try:
-                data = json.dumps(fn(*args)).encode()
-            except BaseException as e:  # noqa: BLE001
-                data = json.dumps({"child_error": repr(e), "trace": traceback.format_exc()[-1500:]}).encode()
-            with os.fdopen(w, "wb") as f:
-                f.write(data)
-        except BaseException:  # noqa: BLE001
-            code = 1
-        finally:
-            os._exit(code)
-    os.close(w)
-    with os.fdopen(r, "rb") as f:
-        data = f.read()
-    _, status = os.waitpid(pid, 0)
-    if not data:
-        return {"child_error": f"child died with status {status}"}
-    return json.loads(data)
+from sim.hermetic import in_child  # noqa: E402
+
+HERMETIC = False  # this module forks per history and per reference call itself; the worker never calls a QC function
 
 
 _WARM = {"done": False}
